@@ -266,7 +266,7 @@ theorem chunkBody_fresh_none (L : Matcher) (d : DType) (fl : Flags) (m : ChunkMe
 theorem drain_tuple {σ : Type} (D : List Nat × σ × Bits × Option Err) : D = (D.1, D.2.1, D.2.2.1, D.2.2.2) := rfl
 
 /-- a lazy matcher changes the outcome of `chunkBody` only into `insufficient` -/
-theorem chunkBody_lazy (L : Matcher) (hL : LazyOf L) (d : DType) (fl : Flags) (m : ChunkMeta)
+theorem chunkBody_lazy (L : Matcher) (hL : WeakLazyOf L) (d : DType) (fl : Flags) (m : ChunkMeta)
     (hc : ChecksOk fl m) (r : Bits) (p : Nat) :
     chunkBody L d (stBody fl (freshBody fl m) r p) = chunkBody eagerMatcher d (stBody fl (freshBody fl m) r p) ∨
       chunkBody L d (stBody fl (freshBody fl m) r p) = (.err .insufficient, stBody fl (freshBody fl m) r p) := by
@@ -295,7 +295,7 @@ theorem chunkBody_lazy (L : Matcher) (hL : LazyOf L) (d : DType) (fl : Flags) (m
     exact chunkBody_fresh_some L d fl m r p _ _ _ _ hDl
 
 /-- … and not at all when the eager decode succeeds and leaves `lookahead` bits -/
-theorem chunkBody_lazy_slack (L : Matcher) (hL : LazyOf L) (d : DType) (fl : Flags) (m : ChunkMeta)
+theorem chunkBody_lazy_slack (L : Matcher) (hL : WeakLazyOf L) (d : DType) (fl : Flags) (m : ChunkMeta)
     (hc : ChecksOk fl m) (r : Bits) (p : Nat) (xs : List Nat) (σ' : St)
     (hok : chunkBody eagerMatcher d (stBody fl (freshBody fl m) r p) = (.ok xs, σ'))
     (hr : lookahead ≤ σ'.rest.length) :
